@@ -44,12 +44,18 @@ def scene(rng, single, mixed=False):
                 pts[2] = np.nan
             animals.append(pts)
         frames.append(dict(hw=((H2, W2) if small else (H, W)), animals=animals, video=f // 2))
+    if rng.random() < 0.5:
+        # full-size frames whose sides the max stride (8) does not divide: stride padding really pads, inside a batch
+        for fr in frames:
+            if fr["hw"] == (H, W):
+                fr["hw"] = (H - 4, W - 4)
     return frames
 
 
 def build(model, frames, k, refine, batch):
     from harness import inferplane as ip
 
+    H, W = max(fr["hw"][0] for fr in frames), max(fr["hw"][1] for fr in frames)     # size-matching target = the largest frame
     if model == "single":
         return ip.build_single(dict(scale=1.0, max_stride=8, stride=2, refine=refine, batch=batch, max_h=H, max_w=W), frames, 3)[0]
     if model == "topdown":
